@@ -303,19 +303,17 @@ def goodV (v : Value) : Bool := valuesEqual v v
 def goodDB (db : DB) : Bool := db.all (fun p => p.2.all (fun t => t.all goodV))
 def Term.good (t : Term) : Bool := match termToValue t with | some v => goodV v | none => true
 
-/-- the fragment of `C21_partial`, as a decidable predicate on the program and the derived data:
-    supported terms only; no `_` in heads; safe negation; negated relations have no derived tuples
-    (excludes `neg_over_derived`); a positive atom over a relation with rules repeats no variable
-    (excludes `repeated_var_over_derived`) and has the arity of that relation's heads; no NaN constant;
-    no variable spelled `_placeholder_…`. -/
-def c21Fragment (prog : Program) (M : DB) : Bool :=
+/-- well-formedness for `C21` (the whole stratified fragment, negation over derived relations and
+    repeated variables included), as a decidable predicate: supported terms only; no `_` in heads; safe
+    negation (a negated atom's variables occur in the head or in an earlier positive atom); a positive
+    atom over a relation with rules has the arity of that relation's heads; no NaN constant; no variable
+    spelled `_placeholder_…`. -/
+def c21Fragment (prog : Program) : Bool :=
   prog.all (fun r =>
     r.supported && r.head.args.all (fun a => a != .wild) && safeNegAux r.body (varsOf r.head.args) &&
     r.terms.all Term.good && (varsOf r.terms).all (fun x => !isPlaceholderName x) &&
     r.body.all (fun
-      | .neg a => (M.get a.rel).isEmpty
-      | .pos a => !prog.any (fun r' => r'.head.rel == a.rel) ||
-          (decide ((varsOf a.args).Nodup) && prog.all (fun r' => r'.head.rel != a.rel || r'.head.args.length == a.args.length))
+      | .pos a => prog.all (fun r' => r'.head.rel != a.rel || r'.head.args.length == a.args.length)
       | _ => true))
 
 /-- the derived data has tuples only for relations that have rules. -/
